@@ -23,7 +23,7 @@ def ser(sess, suite, t, args, fmt):
     if fmt == "bin":
         r = sess.call("ser %s t=%s %s" % (suite, t, args), EXACT, "persist:" + t)
     else:
-        r = sess.call("json_ser %s t=%s %s" % (suite, t, args), NONE, "persist-json:" + t, model=False)
+        r = sess.call("json_ser %s t=%s %s" % (suite, t, args), EXACT, "persist-json:" + t)
     if not r.ok:
         # the only honest state that cannot be stored is one holding the identity element (a commitment to a zero coefficient)
         sess.oracle(":id" in args or ",id" in args or "=id" in args, "an honest %s could not be persisted (%s): %s" % (t, fmt, r.raw[:60]), [sess.records[-1][0]])
